@@ -11,6 +11,7 @@ package main
 //     flag), each composite literal fills at most one member with its own flag.
 
 import (
+	"regexp"
 	"fmt"
 	"go/ast"
 	"go/token"
@@ -125,6 +126,28 @@ func checkElementRepresentation(res *Result, S *Streams, pm *PropModel, rule str
 				}
 			}
 		}
+		if !okClear {
+			// clear written out: before anything is stored, every field clear() resets is reset
+			inl := map[*types.Var]bool{}
+			for _, st := range fd.Body.List {
+				as, ok := st.(*ast.AssignStmt)
+				if !ok || len(as.Lhs) != 1 || len(as.Rhs) != 1 || !isZeroExpr(as.Rhs[0]) {
+					break
+				}
+				if fv := thisField(info, as.Lhs[0]); fv != nil {
+					inl[fv] = true
+				} else {
+					break
+				}
+			}
+			all := len(zeroed) > 0
+			for f := range zeroed {
+				if !inl[f] {
+					all = false
+				}
+			}
+			okClear = all
+		}
 		res.check(okClear, rule, fn, S.pos(fd), "Set"+x+" clears the element first", "no clear before the new value is stored: the previous kind remains set")
 		var written []*Member
 		var flags []*types.Var
@@ -135,6 +158,9 @@ func checkElementRepresentation(res *Result, S *Streams, pm *PropModel, rule str
 		}
 		iriWritten := false
 		for _, a := range thisAssigns(info, fd.Body) {
+			if isZeroExpr(a.rhs) {
+				continue // a reset (clear written out), not a store
+			}
 			if m := pm.memberByField[a.f]; m != nil {
 				written = append(written, m)
 				if id, ok := a.rhs.(*ast.Ident); !ok || info.ObjectOf(id) != param {
@@ -404,7 +430,20 @@ func goodElement(info *types.Info, e ast.Expr, locals map[types.Object]*ast.Comp
 }
 
 // interpretContainerMethod runs the abstract interpreter over one method body.
-func interpretContainerMethod(info *types.Info, fd *ast.FuncDecl) (exits []string, undecided []string) {
+func interpretContainerMethod(info *types.Info, fd *ast.FuncDecl, methods map[string]*ast.FuncDecl) (exits []string, undecided []string) {
+	// parameters of a helper method being interpreted at its call site -> text of the arguments
+	env := map[string]string{}
+	depth := 0
+	xs := func(e ast.Expr) string {
+		t := types.ExprString(e)
+		if len(env) == 0 {
+			return t
+		}
+		for pn, at := range env {
+			t = regexp.MustCompile(`\b`+regexp.QuoteMeta(pn)+`\b`).ReplaceAllString(t, at)
+		}
+		return t
+	}
 	d := &dirtyState{from: map[string]bool{}, points: map[string]bool{}}
 	locals := map[types.Object]*ast.CompositeLit{}
 	report := func() {
@@ -417,6 +456,9 @@ func interpretContainerMethod(info *types.Info, fd *ast.FuncDecl) (exits []strin
 		for _, st := range stmts {
 			switch s := st.(type) {
 			case *ast.ReturnStmt:
+				if depth > 0 {
+					return true // end of the helper being interpreted in place
+				}
 				report()
 				return true
 			case *ast.AssignStmt:
@@ -436,8 +478,8 @@ func interpretContainerMethod(info *types.Info, fd *ast.FuncDecl) (exits []strin
 					l0, ok0 := s.Lhs[0].(*ast.IndexExpr)
 					l1, ok1 := s.Lhs[1].(*ast.IndexExpr)
 					if ok0 && ok1 && isProps(info, l0.X) && isProps(info, l1.X) {
-						d.points[types.ExprString(l0.Index)] = true
-						d.points[types.ExprString(l1.Index)] = true
+						d.points[xs(l0.Index)] = true
+						d.points[xs(l1.Index)] = true
 						continue
 					}
 				}
@@ -450,7 +492,7 @@ func interpretContainerMethod(info *types.Info, fd *ast.FuncDecl) (exits []strin
 							x = pe.X
 						}
 						if ix, ok := x.(*ast.IndexExpr); ok && isProps(info, ix.X) {
-							d.points[types.ExprString(ix.Index)] = true
+							d.points[xs(ix.Index)] = true
 							starHit = true
 						}
 					}
@@ -460,7 +502,7 @@ func interpretContainerMethod(info *types.Info, fd *ast.FuncDecl) (exits []strin
 				}
 				if len(s.Lhs) != 1 || len(s.Rhs) != 1 {
 					if mentionsInvariantState(info, s) {
-						undecided = append(undecided, "unrecognised assignment "+types.ExprString(s.Lhs[0])+" = …")
+						undecided = append(undecided, "unrecognised assignment "+xs(s.Lhs[0])+" = …")
 					}
 					continue
 				}
@@ -497,10 +539,10 @@ func interpretContainerMethod(info *types.Info, fd *ast.FuncDecl) (exits []strin
 								continue
 							}
 						}
-						undecided = append(undecided, "unrecognised write to properties: "+types.ExprString(rhs))
+						undecided = append(undecided, "unrecognised write to properties: "+xs(rhs))
 					case *ast.SliceExpr:
 						// truncation p = p[:len(p)-1]
-						if isProps(info, r.X) && r.Low == nil && r.High != nil && types.ExprString(r.High) == "len(this.properties) - 1" {
+						if isProps(info, r.X) && r.Low == nil && r.High != nil && xs(r.High) == "len(this.properties) - 1" {
 							delete(d.points, "last")
 							continue
 						}
@@ -512,12 +554,12 @@ func interpretContainerMethod(info *types.Info, fd *ast.FuncDecl) (exits []strin
 						}
 						undecided = append(undecided, "properties assigned a non-empty literal")
 					default:
-						undecided = append(undecided, "unrecognised write to properties: "+types.ExprString(rhs))
+						undecided = append(undecided, "unrecognised write to properties: "+xs(rhs))
 					}
 				default:
 					// p[idx] = E   |   p[i].myIdx = e   |   p[i].parent = e
 					if ix, ok := lhs.(*ast.IndexExpr); ok && isProps(info, ix.X) {
-						it := types.ExprString(ix.Index)
+						it := xs(ix.Index)
 						if it == "len(this.properties) - 1" {
 							d.points["last"] = true // a placeholder before truncation
 							continue
@@ -540,10 +582,10 @@ func interpretContainerMethod(info *types.Info, fd *ast.FuncDecl) (exits []strin
 							base = p.X
 						}
 						if ix, ok := base.(*ast.IndexExpr); ok && isProps(info, ix.X) {
-							it := types.ExprString(ix.Index)
+							it := xs(ix.Index)
 							switch sel.Sel.Name {
 							case "myIdx":
-								if types.ExprString(rhs) == it {
+								if xs(rhs) == it {
 									delete(d.points, it)
 								} else {
 									d.points[it] = true
@@ -560,16 +602,48 @@ func interpretContainerMethod(info *types.Info, fd *ast.FuncDecl) (exits []strin
 						}
 					}
 					if mentionsInvariantState(info, s) {
-						undecided = append(undecided, "unrecognised assignment to "+types.ExprString(lhs))
+						undecided = append(undecided, "unrecognised assignment to "+xs(lhs))
 					}
 				}
 			case *ast.ExprStmt:
+				// this.helper(args): a method of the same property that writes the list or the
+				// elements' index/parent is interpreted in place, its parameters standing for the arguments
+				if c, ok := s.X.(*ast.CallExpr); ok && depth < 2 {
+					if sel, ok := c.Fun.(*ast.SelectorExpr); ok && isIdentNamed(sel.X, "this") {
+						if hd := methods[sel.Sel.Name]; hd != nil && hd != fd && hd.Body != nil && mentionsInvariantState(info, hd.Body) {
+							okArgs := true
+							ne := map[string]string{}
+							i := 0
+							if hd.Type.Params != nil {
+								for _, fl := range hd.Type.Params.List {
+									for _, n := range fl.Names {
+										if i < len(c.Args) {
+											ne[n.Name] = xs(c.Args[i])
+										} else {
+											okArgs = false
+										}
+										i++
+									}
+								}
+							}
+							if okArgs && i == len(c.Args) {
+								saved := env
+								env = ne
+								depth++
+								run(hd.Body.List)
+								depth--
+								env = saved
+								continue
+							}
+						}
+					}
+				}
 				// copy(p[a:], p[b:])
 				if c, ok := s.X.(*ast.CallExpr); ok && isIdentNamed(c.Fun, "copy") && len(c.Args) == 2 {
 					dst, ok0 := c.Args[0].(*ast.SliceExpr)
 					src, ok1 := c.Args[1].(*ast.SliceExpr)
 					if ok0 && ok1 && isProps(info, dst.X) && isProps(info, src.X) && dst.Low != nil && src.Low != nil {
-						a, b := types.ExprString(dst.Low), types.ExprString(src.Low)
+						a, b := xs(dst.Low), xs(src.Low)
 						lo := a
 						if len(b) < len(a) {
 							lo = b // idx vs idx+1: the smaller expression
@@ -586,10 +660,10 @@ func interpretContainerMethod(info *types.Info, fd *ast.FuncDecl) (exits []strin
 				// for i := A; i < this.Len(); i++ { p[i].myIdx = i }
 				if as, ok := s.Init.(*ast.AssignStmt); ok && len(as.Lhs) == 1 && len(as.Rhs) == 1 && len(s.Body.List) == 1 {
 					iv, _ := as.Lhs[0].(*ast.Ident)
-					start := types.ExprString(as.Rhs[0])
+					start := xs(as.Rhs[0])
 					okCond := false
 					if be, ok := s.Cond.(*ast.BinaryExpr); ok && be.Op == token.LSS && iv != nil && isIdentNamed(be.X, iv.Name) {
-						c := types.ExprString(be.Y)
+						c := xs(be.Y)
 						okCond = c == "this.Len()" || c == "len(this.properties)"
 					}
 					okPost := false
@@ -797,7 +871,13 @@ func checkC18(res *Result) {
 				continue
 			}
 			nMethods++
-			exits, und := interpretContainerMethod(info, fd)
+			methods := map[string]*ast.FuncDecl{}
+			for mn, mfd := range pm.G.Funcs {
+				if strings.HasPrefix(mn, "("+cn+").") {
+					methods[strings.TrimPrefix(mn, "("+cn+").")] = mfd
+				}
+			}
+			exits, und := interpretContainerMethod(info, fd, methods)
 			short := strings.TrimPrefix(name, "("+cn+").")
 			key := "C18-R1|" + pm.G.Dir + "|" + short
 			switch {
